@@ -37,7 +37,6 @@ import (
 func init() { verifChecks["C08"] = runC08 }
 
 const (
-	c08Base     = int64(95) // 95.aof, 104.aof, 113.aof: names cross the 2->3 digit boundary
 	c08LogSize  = int64(24) // 16-byte header + 8 data bytes, then rotation
 	c08SnapSize = int64(40)
 	c08GcMax    = int64(12)
@@ -46,19 +45,20 @@ const (
 )
 
 type c08Hist struct {
-	Snap bool   `json:"snap"`
+	Snap string `json:"snap"` // full | none | fail (source ends after 25 of 40 bytes)
 	App  string `json:"app"`  // a: 9,9,3   b: 5,4,9,1   c: 20,2
 	GC   bool   `json:"gc"`   // one collector pass after the appends
 	Tail string `json:"tail"` // none | close | more | rename | delnew | resnap
+	Base int64  `json:"base"` // first offset: 95 (names 95,104,113 cross the 2->3 digit boundary: lexical != numeric order) | 100
 }
 
 func (h c08Hist) String() string {
-	return fmt.Sprintf("snap=%v,app=%s,gc=%v,tail=%s", h.Snap, h.App, h.GC, h.Tail)
+	return fmt.Sprintf("snap=%s,app=%s,gc=%v,tail=%s,base=%d", h.Snap, h.App, h.GC, h.Tail, h.Base)
 }
 
 type c08Scenario struct {
 	Hist   c08Hist `json:"hist"`
-	Family string  `json:"family"` // "crash" | "alter" | "clean-crc"
+	Family string  `json:"family"` // "crash" | "crash-crc" | "alter" | "clean-crc"
 	N      int     `json:"n"`      // crash: log prefix length
 	Cut    int     `json:"cut"`    // crash: bytes of log[n] applied (-1 = none)
 	File   string  `json:"file"`   // alter: file (relative)
@@ -106,6 +106,7 @@ type c08W struct {
 
 func c08Record(t *testing.T, h c08Hist, root string) c08Recorded {
 	rec := c08Recorded{idHist: map[string]int{"runA": 0}, maxRight: map[string]int64{}, minLeft: map[string]int64{}}
+	c08Base := h.Base
 	msg := bubble(t, func() {
 		vpoll.Reset(true)
 		os.MkdirAll(root, 0o777)
@@ -135,7 +136,7 @@ func c08Record(t *testing.T, h c08Hist, root string) c08Recorded {
 		id, hist := "runA", 0
 		right := c08Base
 		rec.minLeft[id] = c08Base
-		snapshot := func(left int64) bool {
+		snapshot := func(left int64, complete bool) bool {
 			g := newGate()
 			gates = append(gates, g)
 			w, err := st.GetRdbWriter(g, left, c08SnapSize)
@@ -148,7 +149,11 @@ func c08Record(t *testing.T, h c08Hist, root string) c08Recorded {
 			sb := c08SnapBytes(hist)
 			g.Release(sb[:25])
 			synctest.Wait()
-			g.Release(sb[25:])
+			if complete {
+				g.Release(sb[25:])
+			} else {
+				g.Close(nil)
+			}
 			synctest.Wait()
 			w.Close()
 			synctest.Wait()
@@ -178,7 +183,7 @@ func c08Record(t *testing.T, h c08Hist, root string) c08Recorded {
 			}
 			synctest.Wait()
 		}
-		if h.Snap && !snapshot(c08Base) {
+		if h.Snap != "none" && !snapshot(c08Base, h.Snap == "full") {
 			cleanup()
 			return
 		}
@@ -236,11 +241,11 @@ func c08Record(t *testing.T, h c08Hist, root string) c08Recorded {
 			id, hist = "runB", 1
 			rec.idHist[id] = hist
 			rec.minLeft[id] = c08Base
-			if snapshot(c08Base) && newAof(c08Base) {
+			if snapshot(c08Base, true) && newAof(c08Base) {
 				app(9)
 			}
 		case "resnap":
-			if snapshot(c08Base) && newAof(c08Base) {
+			if snapshot(c08Base, true) && newAof(c08Base) {
 				app(9)
 			}
 		}
@@ -577,6 +582,11 @@ func (c *c08Check) checkID(id string, hist int, minLeft, maxRight int64) {
 	if len(bounds) == 0 {
 		return // snapshot only: range is (rdb.left, rdb.left)
 	}
+	if rl >= 0 && bounds[0] > rl {
+		c.fail("the reported range spans offsets between the snapshot and the first segment that the cache does not hold (an older snapshot in front of a gap is kept)", "range-gap",
+			map[string]interface{}{"run_id": id, "rdb_left": rl, "first_segment": bounds[0]})
+		return
+	}
 	for x := l; x <= r; x++ {
 		if !st.IsValidOffset(x) {
 			c.fail("an offset inside the reported range is reported invalid", "range-gap", map[string]interface{}{"run_id": id, "offset": x})
@@ -694,7 +704,11 @@ func c08Histories(tier string) []c08Hist {
 	if tier == "thorough" {
 		apps = []string{"a", "b", "c"}
 	}
-	for _, snap := range []bool{true, false} {
+	snaps := []string{"full", "none"}
+	if tier == "thorough" {
+		snaps = []string{"full", "none", "fail"}
+	}
+	for _, snap := range snaps {
 		for _, app := range apps {
 			for _, gc := range []bool{false, true} {
 				for _, tail := range []string{"none", "close", "more", "rename", "delnew", "resnap"} {
@@ -703,14 +717,21 @@ func c08Histories(tier string) []c08Hist {
 						if gc && (tail == "none" || tail == "delnew") {
 							continue
 						}
-						if !snap && app == "b" && tail != "close" && tail != "resnap" {
+						if snap == "none" && app == "b" && tail != "close" && tail != "resnap" {
 							continue
 						}
 					}
-					out = append(out, c08Hist{Snap: snap, App: app, GC: gc, Tail: tail})
+					out = append(out, c08Hist{Snap: snap, App: app, GC: gc, Tail: tail, Base: 95})
+					if tier == "thorough" || (app == "a" && snap == "full") {
+						out = append(out, c08Hist{Snap: snap, App: app, GC: gc, Tail: tail, Base: 100})
+					}
 				}
 			}
 		}
+	}
+	if tier != "thorough" {
+		out = append(out, c08Hist{Snap: "fail", App: "a", GC: false, Tail: "none", Base: 95}, c08Hist{Snap: "fail", App: "a", GC: false, Tail: "close", Base: 100},
+			c08Hist{Snap: "fail", App: "b", GC: true, Tail: "rename", Base: 95})
 	}
 	return out
 }
@@ -790,9 +811,10 @@ func runC08(t *testing.T, rep *mc.Reporter) {
 
 	execScn := func(scn c08Scenario, rec c08Recorded) c08Outcome {
 		switch scn.Family {
-		case "crash":
+		case "crash", "crash-crc":
 			im := vos.Build(rec.log, scn.N, scn.Cut)
-			return c08CheckImage(t, im, rec, false, false, c08Shape(rec.log, scn.N, scn.Cut), map[string]interface{}{"crash_before": fmt.Sprint(opAt(rec.log, scn.N)), "cut": scn.Cut})
+			v := scn.Family == "crash-crc" // verification on: refusing (e.g. the unfinished newest segment) is fine, wrong bytes are not
+			return c08CheckImage(t, im, rec, v, v, c08Shape(rec.log, scn.N, scn.Cut), map[string]interface{}{"crash_before": fmt.Sprint(opAt(rec.log, scn.N)), "cut": scn.Cut})
 		case "clean-crc":
 			im := vos.Build(rec.log, len(rec.log), -1)
 			return c08CheckImage(t, im, rec, true, false, "clean-crc", nil)
@@ -878,6 +900,9 @@ func runC08(t *testing.T, rep *mc.Reporter) {
 			seen[hsh] = true
 			images++
 			run(c08Scenario{Hist: h, Family: "crash", N: n, Cut: cut}, rec)
+			if tier == "thorough" {
+				run(c08Scenario{Hist: h, Family: "crash-crc", N: n, Cut: cut}, rec)
+			}
 		}
 		for n := 0; n <= len(rec.log); n++ {
 			try(n, -1)
@@ -893,7 +918,7 @@ func runC08(t *testing.T, rep *mc.Reporter) {
 			rep.Count("duplicate_images", dups)
 		}
 		// family 2: alterations of cleanly closed files, verification on
-		if h.Tail == "close" && (tier == "thorough" || (h.App == "a" && !h.GC)) {
+		if h.Tail == "close" && h.Snap != "fail" && (tier == "thorough" || h.App == "a") {
 			run(c08Scenario{Hist: h, Family: "clean-crc"}, rec)
 			final := vos.Build(rec.log, len(rec.log), -1)
 			files := final.Files()
@@ -903,6 +928,9 @@ func runC08(t *testing.T, rep *mc.Reporter) {
 			}
 			sort.Strings(names)
 			masks := []int{0x01, 0xff}
+			if tier == "thorough" {
+				masks = []int{0x01, 0x10, 0x80, 0xff}
+			}
 			for _, p := range names {
 				for pos := 0; pos < len(files[p]); pos++ {
 					for _, m := range masks {
